@@ -380,6 +380,25 @@ struct GravLayout {
     dlon_neg: bool,
     tail: u8,
     indent: bool,
+    /// how a trailing comment is attached: 0 after whitespace, 1..=5 glued to the preceding number
+    glue: u8,
+    /// comment after every header line (not only after the sixth number)
+    hdr_comments: bool,
+    /// comment directly after the last value of the file
+    last_comment: bool,
+}
+
+/// A trailing comment: everything from '#' to the end of the line is discarded, whether or not
+/// whitespace precedes the '#'.
+fn trailing_comment(glue: u8, k: usize) -> String {
+    match glue % 6 {
+        0 => format!("   # comment {k} 1.5 2.5"),
+        1 => "#south row".to_string(),
+        2 => format!("#2.5 3.5 {k}"),
+        3 => "#a#b ## 7 #8 #".to_string(),
+        4 => "#".to_string(),
+        _ => " #9".to_string(),
+    }
 }
 
 /// Render; returns the text and the specification *as written* (values parsed back from
@@ -423,8 +442,12 @@ fn grav_render(raw: &GravSpec, lay: &GravLayout) -> (String, GravSpec) {
         }
         t.push_str(h);
         if breaks.contains(&(i + 1)) {
-            if lay.trailing_comments && i == 5 {
-                t.push_str(" # header ends here 99 98");
+            if lay.trailing_comments && (i == 5 || lay.hdr_comments) {
+                if lay.glue % 6 == 0 && i == 5 {
+                    t.push_str(" # header ends here 99 98");
+                } else {
+                    t.push_str(&trailing_comment(lay.glue, i));
+                }
             }
             t.push_str(nl);
         } else {
@@ -448,9 +471,10 @@ fn grav_render(raw: &GravSpec, lay: &GravLayout) -> (String, GravSpec) {
             t.push_str("    ");
         }
         t.push_str(&s);
-        if (i + 1) % per_line == 0 {
-            if lay.trailing_comments && (i / per_line) % 3 == 0 {
-                t.push_str("   # row comment 1.5 2.5");
+        let last = i + 1 == raw.values.len();
+        if (i + 1) % per_line == 0 || (last && lay.last_comment) {
+            if (lay.trailing_comments && (i / per_line) % 3 == 0) || (last && lay.last_comment) {
+                t.push_str(&trailing_comment(lay.glue, i));
             }
             t.push_str(nl);
             if lay.blank_lines && (i / per_line) % 4 == 3 {
@@ -1672,8 +1696,12 @@ fn grav_layout() -> impl Strategy<Value = GravLayout> {
     (
         (0u8..5, 0u8..4, 0u8..4, 0u8..4, any::<bool>(), any::<bool>()),
         (any::<bool>(), 0u8..6, 0u8..8, any::<bool>(), any::<bool>(), 0u8..4, any::<bool>()),
+        (0u8..6, any::<bool>(), any::<bool>()),
     )
-        .prop_map(|((comments_top, header_split, per_line, sep, crlf, trailing_comments), (blank_lines, hdr_style, val_style, dlat_neg, dlon_neg, tail, indent))| GravLayout {
+        .prop_map(|((comments_top, header_split, per_line, sep, crlf, trailing_comments), (blank_lines, hdr_style, val_style, dlat_neg, dlon_neg, tail, indent), (glue, hdr_comments, last_comment))| GravLayout {
+            glue,
+            hdr_comments,
+            last_comment,
             comments_top,
             header_split,
             per_line,
@@ -2264,7 +2292,7 @@ fn main() {
     let side = if thorough { 20 } else { 12 };
     run.section(
         "gravsoft-roundtrip",
-        "random grids (2..12 rows/cols, 1-3 bands; angular, and linear/projected with 0, 1, 2 or 3 of the four bounds within +-720 on either axis, incl. 0 and negative bounds) rendered in random layouts (comments, blank lines, CRLF, tabs, header split over lines, one row/node/value per line, 8 number spellings, either sign of dlat/dlon, with/without final newline); non-trivial = every node value and all four edges verified; distinct by text",
+        "random grids (2..12 rows/cols, 1-3 bands; angular, and linear/projected with 0, 1, 2 or 3 of the four bounds within +-720 on either axis, incl. 0 and negative bounds) rendered in random layouts (comments incl. '#' glued to the preceding header number / node value / last value of the file, '#' followed directly by text or a number, '#' alone, comments containing '#'; blank lines, CRLF, tabs, header split over lines, one row/node/value per line, 8 number spellings, either sign of dlat/dlon, with/without final newline); non-trivial = every node value and all four edges verified; distinct by text",
         n,
         move || grav_case(side),
         |c: &GravCase, rec: &mut Rec| {
@@ -2294,6 +2322,33 @@ fn main() {
                     }
                     if c.text.contains('\t') {
                         rec.class("layout-tabs");
+                    }
+                    {
+                        // '#' glued to the preceding number: in the header, after a node value, at the very end
+                        let b = c.text.as_bytes();
+                        let toks = grav_tokens(b);
+                        let glued = |k: usize| toks.get(k).map(|t| b.get(t.1) == Some(&b'#')).unwrap_or(false);
+                        if (0..5).any(glued) {
+                            rec.class("glued-comment-after-header-number");
+                        }
+                        if glued(5) {
+                            rec.class("glued-comment-after-last-header-number");
+                        }
+                        if (6..toks.len().saturating_sub(1)).any(glued) {
+                            rec.class("glued-comment-after-node-value");
+                        }
+                        if toks.len() > 6 && glued(toks.len() - 1) {
+                            rec.class("glued-comment-after-last-value");
+                        }
+                        if c.text.contains("#2.5") {
+                            rec.class("glued-comment-starting-with-number");
+                        }
+                        if c.text.lines().any(|l| l.trim() == "#") {
+                            rec.class("line-of-hash-alone");
+                        }
+                        if c.text.contains("#a#b") || c.text.contains("####") {
+                            rec.class("comment-containing-hashes");
+                        }
                     }
                     if !c.text.ends_with('\n') {
                         rec.class("layout-no-final-newline");
